@@ -4,5 +4,11 @@ check("C13", "proof",
       "enumerate-and-discharge dataflow/CFG rules over typed AST (go/packages, go/cfg): map-range idiom classification, who-may-call deny list, stage must-precede, file-write ownership",
       "DESIGN.md 3/C13")
 
-for pid in ["C01","C02","C03","C04","C05","C06","C07","C08","C09","C10","C11","C12","C14","C15","C16","C17","C18","C19"]:
+check("C18", "proof",
+      "Proof of instance confinement: the three templates are abstractly instantiated (both emit_bounds variants, one model production per helper-rule kind and arity), compiled to SSA, and a may-alias taint analysis proves that nothing derived from a package-level variable is written through, appended to, copied into, cleared, sent on, or handed to code outside the templates; package-level variables have constant initialisers, no init/go/sync/unsafe. Thorough repeats it on the four checked-in generated packages. No shared mutable location implies race freedom for every interleaving, which no test can enumerate.",
+      "Trusted: go/ssa (x/tools v0.29.0), the checker's Jet-subset instantiation, Go memory model. Outside the claim: user actions, the user's _Lexer, simplelexer. The taint abstraction is type/field keyed and flow-insensitive (may over-approximate aliasing, reported as violation).",
+      "SSA may-alias taint (effects) analysis over abstractly instantiated templates and generated instances; compile-time constant-initialiser check; positive/negative fixtures on every run",
+      "DESIGN.md 3/C18")
+
+for pid in ["C01","C02","C03","C04","C05","C06","C07","C08","C09","C10","C11","C12","C14","C15","C16","C17","C19"]:
     na(pid, "check under construction in this session; see DESIGN.md section 3 for the planned rules")
